@@ -160,6 +160,8 @@ def c16_units(tier):
     us.append(Unit("sequence-reply-n3", WORLD + ["c07.go"], "zzC07_LinkStep", {"loop": 32, "rec": 4, "stubs": "hasCycle=zzHasCycleSpec", "only": "C16/"},
                    note="hasCycle replaced by its reachability summary (checked under C07)",
                    bounds="store of 3 items, any acyclic same-kind edges, 1 tombstone; sequence | sequence rm with arbitrary ids and --json: the edge in the reply is what the post-state read shows"))
+    us.append(Unit("prune-reply-n3", ["c06.go", "c07.go", "c09.go"], "zzC09_PruneRun", {"loop": 32, "rec": 4, "stubs": "hasCycle=zzHasCycleSpec", "only": "C16/"},
+                   bounds="store of 3 items + 1 tombstone; prune --yes through the real runPrune: the pruned ids it reports (the value RunPrune prints) are exactly the items missing from the post-state read"))
     return us
 
 
